@@ -318,3 +318,98 @@ def random_quaternion(rng, m):
         if any(q):
             g = gcd(gcd(abs(q[0]), abs(q[1])), gcd(abs(q[2]), abs(q[3])))
             return tuple(x // g for x in q)
+
+
+# ------------------------------------------------------------------ integer form shared with TLA+
+def _norm_vec(fr3):
+    """(x, y, z) Fractions -> [X, Y, Z, d] integers with common denominator d > 0, reduced."""
+    d = 1
+    for x in fr3:
+        d = d * x.denominator // gcd(d, x.denominator)
+    nums = [int(x * d) for x in fr3]
+    g = gcd(gcd(abs(nums[0]), abs(nums[1])), gcd(abs(nums[2]), d))
+    return [n // g for n in nums] + [d // g]
+
+
+def cyl_ints(c: Cyl):
+    """The record [m, k, b, r, h] of CylinderDefs (r, h must be integers in lattice units)."""
+    k = 1
+    for row in c.R:
+        for x in row:
+            k = k * x.denominator // gcd(k, x.denominator)
+    m = [[int(x * k) for x in row] for row in c.R]
+    assert c.r.denominator == 1 and c.h.denominator == 1
+    return {'m': m, 'k': k, 'b': _norm_vec(c.base), 'r': int(c.r), 'h': int(c.h)}
+
+
+def cyl_from_ints(d) -> Cyl:
+    R = tuple(tuple(F(x, d['k']) for x in row) for row in d['m'])
+    b = d['b']
+    return Cyl(R, (F(b[0], b[3]), F(b[1], b[3]), F(b[2], b[3])), d['r'], d['h'])
+
+
+def vec_ints(p):
+    return _norm_vec(tuple(F(x) for x in p))
+
+
+def vec_from_ints(v):
+    return (F(v[0], v[3]), F(v[1], v[3]), F(v[2], v[3]))
+
+
+LIM = 2 ** 31 - 1
+
+
+def ray_fits32(c: Cyl, s, n) -> bool:
+    """Conservative test that every intermediate integer of RayParts / HitIv / RayClass / Inside of
+    CylinderDefs stays within TLC's 32-bit range for this case (reductions by gcd only make numbers
+    smaller, so bounding the unreduced products is sufficient)."""
+    ci = cyl_ints(c)
+    si, ni = vec_ints(s), vec_ints(n)
+    k, nd, b = ci['k'], ni[3], ci['b']
+    D = si[3] * b[3]
+    w = [si[i] * b[3] - b[i] * si[3] for i in range(3)]
+    a = [ci['m'][i][2] for i in range(3)]
+    nn = ni[:3]
+    NA, WA, WN = dot(nn, a), dot(w, a), dot(w, nn)
+    X = dot(cross(w, nn), a)
+    An = nd * nd * k * k - NA * NA
+    Bn = WN * k * k - WA * NA
+    Cn = dot(w, w) * k * k - WA * WA - ci['r'] ** 2 * D * D * k * k
+    dn = An * ci['r'] ** 2 * D * D - X * X
+    parts = [abs(x) for x in (D, NA, WA, WN, X, X * X, An, Bn, Cn, dn, dot(w, w) * k * k, WA * WA,
+                              ci['r'] ** 2 * D * D * k * k, An * ci['r'] ** 2 * D * D,
+                              WN * k * k, WA * NA, ci['h'] * D * k)]
+    sq = isqrt(max(dn, 0)) + 1
+    num = max(nd * (abs(Bn) + k * sq), (ci['h'] * D * k + abs(WA)) * nd, 1)
+    den = max(D * max(An, 1), abs(NA) * D, 1)
+    parts += [2 * num * den, den * den, k * sq]
+    # Inside(c, s): v = w over D, T = WA
+    parts += [dot(w, w) * k * k, (ci['h'] * si[3]) * b[3] * k, (ci['r'] * si[3]) ** 2 * b[3] ** 2 * k * k]
+    return max(parts) <= LIM and max(abs(x) for x in w) <= LIM
+
+
+def quad_fits32(c: Cyl, pts64) -> bool:
+    """Same for InsideSl(c, p, 2) on points <<x, y, z, 64>>."""
+    ci = cyl_ints(c)
+    k, b = ci['k'], ci['b']
+    a = [ci['m'][i][2] for i in range(3)]
+    worst = 0
+    for p in pts64:
+        v = [p[i] * b[3] - b[i] * 64 for i in range(3)]
+        T = dot(v, a)
+        worst = max(worst, dot(v, v) * k * k, T * T, abs(T))
+    worst = max(worst, (ci['r'] * 64 + 2) ** 2 * b[3] ** 2 * k * k, (ci['h'] * 64 + 2) * b[3] * k)
+    return worst <= LIM
+
+
+def move_fits32(c: Cyl, q, tau) -> bool:
+    ci = cyl_ints(c)
+    m, n = qmat_int(q)
+    big = max(abs(x) for row in m for x in row) * max(abs(x) for row in ci['m'] for x in row) * 3
+    b = ci['b']
+    t = vec_ints(tau)
+    big = max(big, n * ci['k'], max(abs(x) for row in m for x in row) * max(abs(x) for x in b[:3]) * 3 * t[3]
+              + max(abs(x) for x in t[:3]) * n * b[3], n * b[3] * t[3],
+              ci['h'] * max(abs(x) for row in ci['m'] for x in row) * b[3] + max(abs(x) for x in b[:3]) * ci['k'],
+              (n * ci['k']) ** 2 * 3)
+    return big * 4 <= LIM
